@@ -72,7 +72,10 @@ class C10(Prop):
     }
 
     def extract_tables(self, repo):
-        return S.extract_tables(repo)
+        from harness import pystream
+        out = dict(S.extract_tables(repo))
+        out.update(pystream.generate_consumer(repo))     # the consumers' decision logic, translated from the source
+        return out
 
     # ----- implementation side
     def drive(self, consumer, run_events, kwargs_list, skip_exists=False):
